@@ -18,6 +18,7 @@ EXPLANATION = (
     "replaced by their contracts) lie inside the search bounds and the proposal is the best optimiser result; "
     "add_evaluation appends the new point to the data of the next fit, updates the incumbent maximum, and neither "
     "__init__ nor add_evaluation changes the caller's arrays (values and shape)."
+    " Call-sequence unit: one acquisition object evaluated at x under regressor 1, update_gp(regressor 2), evaluated at the same x, another point, and back: always the definition under the regressor held at the time of the call. starting_positions is run with the bounds as tuples, lists and a float ndarray, twice, and the caller's bounds must be unchanged."
 )
 BOUNDS = {"quick": "d<=2, 2-3 data points, <=3 optimiser starts", "thorough": "d=3 for the acquisition identities"}
 ASSUMPTIONS = [
@@ -27,22 +28,22 @@ ASSUMPTIONS = [
 ]
 
 
-def _stub_gp(h, d, ny=2, smooth=True):
+def _stub_gp(h, d, ny=2, smooth=True, tag=""):
     """smooth=True: replay through a fixed smooth concrete predictive mean/variance (needed where the replay
     differentiates numerically); smooth=False: replay the solver model's own values of mu and var"""
     dt = object if h.sym else float
     if smooth:
-        mu, dmu = gc.smooth_ufunc(h, "mu", d, seed=1)
-        var, dvar = gc.smooth_ufunc(h, "var", d, seed=2, positive=True)
+        mu, dmu = gc.smooth_ufunc(h, "mu" + tag, d, seed=1 + 2 * len(tag))
+        var, dvar = gc.smooth_ufunc(h, "var" + tag, d, seed=2 + 2 * len(tag), positive=True)
     else:
-        mu, var = h.ufunc("mu", d), h.ufunc("var", d)
-        dmu = [h.ufunc(f"mu_d{k}", d) for k in range(d)]
-        dvar = [h.ufunc(f"var_d{k}", d) for k in range(d)]
+        mu, var = h.ufunc("mu" + tag, d), h.ufunc("var" + tag, d)
+        dmu = [h.ufunc(f"mu{tag}_d{k}", d) for k in range(d)]
+        dvar = [h.ufunc(f"var{tag}_d{k}", d) for k in range(d)]
 
     class GP:
         def __init__(self):
-            self.y = h.real("ydata", ny)
-            self.x = h.real("xdata", (ny, d))
+            self.y = h.real("ydata" + tag, ny)
+            self.x = h.real("xdata" + tag, (ny, d))
 
         def __call__(self, x):
             x = np.asarray(x).ravel()
@@ -271,3 +272,33 @@ def proposals_inside_bounds(h, d, opt):
     if h.sym:
         for k, (xs, fs) in enumerate(results):
             h.le(f"proposal is the best optimiser result [{k}]", score(prop), fs)
+
+
+@unit("C18", quick=[dict(kind=k, d=1) for k in ("EI", "UCB", "MV")], thorough=[dict(kind=k, d=2) for k in ("EI", "UCB", "MV")], cost=4, timeout_ms=60000)
+def acquisition_follows_the_current_regressor(h, kind, d):
+    """a call sequence on one acquisition object: evaluate at x under regressor 1, hand over regressor 2 with update_gp (what
+    every add_evaluation does), evaluate at the *same* x again, then at another point and back.  Every value must be the
+    definition under the regressor held at the time of the call"""
+    aq, a, gp1, mu1, var1 = _acq(h, kind, d, smooth=False)
+    gp2, mu2, var2 = _stub_gp(h, d, smooth=False, tag="B")
+    x = h.real("x", d)
+    z = h.real("z", d)
+
+    def ref(mu, var, gp, t):
+        if kind == "UCB":
+            return mu(t) + a.kappa * h.sqrt(var(t))
+        if kind == "MV":
+            return var(t)
+        return _ei_ref(h, mu, var, _max(h, gp.y), t)[0]
+    h.eq("regressor 1: value at x", a(x), ref(mu1, var1, gp1, x))
+    a.opt_func(x)
+    a.opt_func_gradient(x)
+    a.update_gp(gp2)
+    h.eq("regressor 2: value at the same x", a(x), ref(mu2, var2, gp2, x))
+    h.eq("regressor 2: opt_func at the same x", a.opt_func(x), -a(x) if kind != "EI" else -h.log(a(x)))
+    v, g = a.opt_func_gradient(x)
+    h.eq("regressor 2: opt_func_gradient value at the same x", v, a.opt_func(x))
+    h.eq("regressor 2: value at z", a(z), ref(mu2, var2, gp2, z))
+    a.update_gp(gp1)
+    h.eq("regressor 1 again: value at z", a(z), ref(mu1, var1, gp1, z))
+    h.eq("regressor 1 again: value at x", a(x), ref(mu1, var1, gp1, x))
